@@ -4,6 +4,7 @@ import (
 	"bytes"
 	"encoding/json"
 	"fmt"
+	"sort"
 	"strings"
 	"time"
 
@@ -75,6 +76,28 @@ func canon(v interface{}) string {
 	return string(b2)
 }
 
+// canonUnordered is canon for answers whose top-level list is built by walking a
+// map (the order of its entries is not part of the answer).
+func canonUnordered(v interface{}) string {
+	b, err := json.Marshal(v)
+	if err != nil {
+		return canon(v)
+	}
+	var l []json.RawMessage
+	if json.Unmarshal(b, &l) != nil {
+		return canon(v)
+	}
+	var items []string
+	for _, it := range l {
+		var g interface{}
+		_ = json.Unmarshal(it, &g)
+		c, _ := json.Marshal(g)
+		items = append(items, string(c))
+	}
+	sort.Strings(items)
+	return "[" + strings.Join(items, ",") + "]"
+}
+
 // apply feeds one event the way the node's message handler does: the event
 // itself, then the manual hand-over events between the three machines (where
 // the product always restores from the dump, so both twins do).
@@ -113,12 +136,18 @@ func (tw *twin) apply(round string, event string, req interface{}, now time.Time
 		tw.inst = nil // the product discards the instance after an error
 		return stepOut{err: "rejected", dump: string(tw.dump)}, nil
 	}
+	// what the event itself answered is compared as well as what the hand-overs
+	// answer (the node acts on both: e.g. the collected partial signatures)
+	datas := canonUnordered(resp.Data)
 	handover := func(ev fsm.Event) error {
 		inst, err = state_machines.FromDump(d)
 		if err != nil {
 			return err
 		}
 		resp, d, e = inst.Do(ev, requests.DefaultRequest{CreatedAt: now})
+		if e == nil {
+			datas += " | " + canon(resp.Data)
+		}
 		return e
 	}
 	var herr error
@@ -137,7 +166,7 @@ func (tw *twin) apply(round string, event string, req interface{}, now time.Time
 	}
 	tw.dump = d
 	tw.inst = inst
-	return stepOut{state: string(resp.State), data: canon(resp.Data), dump: string(d)}, nil
+	return stepOut{state: string(resp.State), data: datas, dump: string(d)}, nil
 }
 
 // runTwin is C19: the same generated history drives twin A (continues in
